@@ -78,6 +78,7 @@ type callPlan struct {
 	via2                                                 bool     // issued through the second client
 	errBulk                                              bool     // C12: the oversize reply is an undeclared error with a long text
 	connLost                                             bool     // HTTP: the connection was lost after the server had processed the request
+	onwardWrapped                                        bool     // ... through a decorated view of that context (a type embedding frugal.FContext)
 	onward                                               bool     // the handler makes an onward call with the context it was given, between setting response headers
 	onwardErr                                            error
 	onwardRet                                            int32
@@ -405,6 +406,14 @@ func (d *downHandler) Add(fctx frugal.FContext, a, b int32) (int32, error) {
 	return a + b, nil
 }
 
+// tracedContext is what applications write to decorate a context: it embeds the interface and adds to it.
+type tracedContext struct {
+	frugal.FContext
+	spans int
+}
+
+func (t *tracedContext) Span() int { t.spans++; return t.spans }
+
 type rtFunc func(*http.Request) (*http.Response, error)
 
 func (f rtFunc) RoundTrip(r *http.Request) (*http.Response, error) { return f(r) }
@@ -460,7 +469,12 @@ func (h *simHandler) enter(fctx frugal.FContext, method string, args ...any) (*c
 		for _, k := range keys[:len(keys)/2+len(keys)%2] {
 			fctx.AddResponseHeader(k, p.respHdr[k])
 		}
-		p.onwardRet, p.onwardErr = h.env.down().Add(fctx, 40, 2)
+		octx := fctx
+		if p.onwardWrapped {
+			// the application decorates the context it was given (tracing, logging) and calls onward with that
+			octx = &tracedContext{FContext: fctx}
+		}
+		p.onwardRet, p.onwardErr = h.env.down().Add(octx, 40, 2)
 		for _, k := range keys[len(keys)/2+len(keys)%2:] {
 			fctx.AddResponseHeader(k, p.respHdr[k])
 		}
